@@ -11,9 +11,12 @@ from harness import core  # noqa: E402
 
 
 def dispatch(prop, tier):
-    if prop in ('C01', 'C02', 'C19'):
+    if prop in ('C01', 'C02', 'C06', 'C19'):
         from harness.checks import pycodec
         return getattr(pycodec, 'run_' + prop.lower())(tier)
+    if prop == 'C04':
+        from harness.checks import layout
+        return layout.run_c04(tier)
     raise core.Infra('no check registered for %s' % prop)
 
 
